@@ -471,6 +471,7 @@ class StoreRun:
         self.steps = []         # [0, wire op] | [1, b, query]
         self.where = []         # script index of each of them
         self.table = {}         # peewee: (ts, dur) -> end instant SQLite prints
+        self.raw = {}           # peewee: the raw rows behind the table, see harness/c03_sqldate.py
         self.dirty = True
         self.epoch = 0
         self.rewrites = {}      # b -> number of writes so far that changed or removed a stored event
@@ -609,12 +610,15 @@ class StoreRun:
                 del self.pending[b]
 
     def measure(self):
-        from aw_core.models import Event
-        from aw_datastore.storages.peewee import EventModel, dt_plus_duration
-        rows = EventModel.select(EventModel, dt_plus_duration(EventModel.timestamp, EventModel.duration).alias("endtxt"))
-        for r in rows:
-            e = Event(**EventModel.json(r))
-            self.table[(us_of_dt(e.timestamp), us_of_td(e.duration))] = _parse_ms_text(r.endtxt)
+        # every stored row as the engine holds and prints it (harness/c03_sqldate.py): the raw TEXT / DECIMAL
+        # cells and the value of the code's own dt_plus_duration expression on them
+        from . import c03_sqldate
+        for row in c03_sqldate.raw_rows(self.st.db):
+            try:
+                self.table[(row[0], row[1])] = _parse_ms_text(row[4])
+            except (TypeError, ValueError):
+                pass        # not the TEXT shape the model prints: reported by the comparison with Model/SqliteDate.v
+            self.raw[(row[0], row[1], row[2], str(row[3]))] = row
         self.dirty = False
 
     def query(self, b, q, at):
@@ -681,7 +685,8 @@ def run_impl_script(case, backend, tmpdir, n):
         return {"recs": recs,
                 "stores": [None if r is None else
                            {"steps": r.steps, "where": r.where, "broken": r.broken,
-                            "table": [[t, d, em] for (t, d), em in sorted(r.table.items())]} for r in runs]}
+                            "table": [[t, d, em] for (t, d), em in sorted(r.table.items())],
+                            "raw": [r.raw[k] for k in sorted(r.raw)]} for r in runs]}
     finally:
         for s in list(opened):
             try:
